@@ -240,7 +240,7 @@ def grids(tier):
     out = [
         ("atoms", a1, SUFFIX4),
         ("atoms2", [x for x in a2 if x[0] not in a1s], SUFFIX2 if tier == "quick" else SUFFIX4),
-        ("depth1", d1, SUFFIX4),
+        ("depth1", d1, SUFFIX2 if tier == "quick" else SUFFIX4),
         ("depth2", d2, SUFFIX2),
         ("spacing", c2 + dedupe(wrap(c3, W[:6])), spacing_suffixes()),
         ("fargs", c2 + [("v", [])], FARG_SUFFIXES),
@@ -251,7 +251,7 @@ def grids(tier):
         d3 = dedupe(wrap(dedupe(wrap(dedupe(wrap(c3[:2], W)), W)), W))
         out += [
             ("atoms3", [x for x in atoms(3) if x[0] not in {s for s, _ in a2} and x[0][0] not in "rf"], SUFFIX2),
-            ("depth2-core1", d2full, SUFFIX2),
+            ("depth2-core1", d2full, [("", [])]),
             ("depth3", d3, [("", [])]),
         ]
     return out
